@@ -15,6 +15,7 @@
  *   g split <text-hex> <sep-hex> <assign-hex>      mpt_path_set + mpt_path_next until exhausted
  *   g last <text-hex> <sep-hex> <skip>             mpt_path_set, <skip> x mpt_path_next, mpt_path_last
  *   g build <mode> <sep-hex> <elem-hex>[,<elem-hex>...]   mode s|b: addchar/add each element, walk with next, del all
+ *   g extend <sep-hex> <text-hex> <skip> <elems>       mpt_path_set from a string, <skip> x next, add elements, walk
  *   g rebuild <mode> <sep-hex> <elems> <skip> <elem-hex>   build, <skip> x next, del, add <elem>, walk the rest
  *
  * Output: R <verdict> | C G[<path>=<value>,...]P[...] | I <return code> tree=<dump>
@@ -552,6 +553,46 @@ int main(void)
 			if (first) strcat(out, "none");
 			snprintf(ret, sizeof(ret), "off=%zu len=%zu", p.off, p.len);
 			mpt_path_fini(&p);
+			result(out, ret);
+		}
+		else if (!strcmp(op, "extend") && drv_nw == 6) {
+			/* g extend <sep-hex> <text-hex> <skip> <elems>: path from a plain string (no own buffer), <skip> x next,
+			 * then further elements added character by character (first character moves the data to an own buffer), walk */
+			MPT_STRUCT(path) p = MPT_PATH_INIT, q;
+			int ok = 1, n, first = 1;
+			size_t skip = 0, i;
+			char *save = 0, *tok;
+			char ret[64];
+			if (get_char(drv_w[2], &sep) || drv_parse_nat(drv_w[4], &skip) || skip > 8) { puts("bad-op"); continue; }
+			if (!(ptxt = get_text(drv_w[3], &plen))) { puts("bad-op"); continue; }
+			p.sep = sep; p.assign = 0;
+			mpt_path_set(&p, ptxt, -1);
+			for (i = 0; ok && i < skip; i++) if (!p.len || mpt_path_next(&p) < 0) ok = 0;
+			if (!ok) { free(ptxt); result("unbuilt", "-"); continue; }
+			strcpy(out, "add=");
+			for (tok = strtok_r(drv_w[5], ",", &save); tok; tok = strtok_r(0, ",", &save)) {
+				size_t el;
+				char *e = get_text(tok, &el);
+				if (!e) { ok = 0; break; }
+				for (i = 0; i < el; i++) {
+					if (mpt_path_addchar(&p, (uint8_t) e[i]) < 0 || mpt_path_valid(&p) < 0) ok = 0;
+				}
+				r = mpt_path_add(&p, (int) el);
+				strcat(out, r < 0 ? "E" : "+");
+				free(e);
+			}
+			if (!ok) { mpt_path_fini(&p); free(ptxt); puts("bad-op"); continue; }
+			strcat(out, " elems=");
+			q = p;
+			while (q.len && (n = mpt_path_next(&q)) >= 0) {
+				size_t start = q.off - (size_t) n - 1;
+				put_elems(out, sizeof(out), q.base + start, (size_t) n, first);
+				first = 0;
+			}
+			if (first) strcat(out, "none");
+			snprintf(ret, sizeof(ret), "off=%zu len=%zu", p.off, p.len);
+			mpt_path_fini(&p);
+			free(ptxt);
 			result(out, ret);
 		}
 		else if (!strcmp(op, "build") && drv_nw == 5 && (!strcmp(drv_w[2], "s") || !strcmp(drv_w[2], "b"))) {
